@@ -542,6 +542,12 @@ func parseSccExtension(r *bits.EBSPReader) (*SccExtension, error) {
 				numComps = 3
 				ext.ChromaBitDepthEntryMinus8 = r.ReadExpGolomb()
 			}
+			// The values shall be equal to the bit depths of the SPS, which are in the range of 0 to 8, inclusive.
+			// They give the number of bits of every entry read below
+			if ext.LumaBitDepthEntryMinus8 > 8 || ext.ChromaBitDepthEntryMinus8 > 8 {
+				return nil, fmt.Errorf("luma_bit_depth_entry_minus8 %d or chroma_bit_depth_entry_minus8 %d is not in range 0 to 8",
+					ext.LumaBitDepthEntryMinus8, ext.ChromaBitDepthEntryMinus8)
+			}
 			ext.PalettePredictorInitializer = make([][]uint, numComps)
 			// Fill luma
 			for i := uint(0); i < ext.NumPalettePredictorInitializers; i++ {
